@@ -238,6 +238,14 @@ def collect(prop, repo):
             'src/operators/sequence_equal.rs', 'SequenceEqual',
             'sequence_equal is built on zip, which stops at the shortest input: sequences of different length that agree on the common prefix are reported equal'))
 
+    if prop in ('C02', 'C03', 'C04'):
+        # glue obligations: the public operator method hands its parameters, unchanged and in order, to `<Type>::new`, `new` stores them
+        # unchanged, and `execute` reads them back from the fields it captured (the Verus units take the captured values as given)
+        for path in sorted(glob.glob(os.path.join(repo, 'src', 'operators', '*.rs'))):
+            name = os.path.splitext(os.path.basename(path))[0]
+            rel = os.path.relpath(path, repo)
+            ob('%s.glue' % name, rel, lambda path=path: glue(path))
+
     if prop == 'C04':
         # every error handler handed to new_observer forwards the error it RECEIVED (its own parameter, possibly cloned) whenever it
         # calls sink_error: a handler that forwards some other RxError changes the payload (C04).  Decided on the token tree for all
@@ -374,4 +382,96 @@ def c14_frame(path, name):
     body_txt = re.sub(r'\s+', '', src[sk.body_group.start:sk.body_group.end])
     if re.search(r'\.call_and_clear_if_available\(|\.clear\(\)', body_txt) and not re.search(r'(vec|items|results)\w*\.clear\(\)', body_txt):
         return 'failed', 'a captured callable is cleared/consumed (clear / call_and_clear_if_available) inside the create-closure: FunctionWrapper clones share one slot, so the callable is gone for every later subscription'
+    return None
+
+
+def _params_of(hdr, src):
+    pg = next((t for t in hdr if t.is_group('(')), None)
+    out = []
+    if pg is None:
+        return out
+    parts, cur, depth = [], [], 0
+    for t in pg.kids:
+        if t.is_p('<'):
+            depth += 1
+        elif t.is_p('>'):
+            depth -= 1
+        if t.is_p(',') and depth <= 0:
+            parts.append(cur); cur = []
+        else:
+            cur.append(t)
+    if cur:
+        parts.append(cur)
+    for p_ in parts:
+        if p_ and p_[0].kind == 'ident' and not p_[0].is_id('self') and any(t.is_p(':') for t in p_):
+            out.append(p_[0].text)
+    return out
+
+
+def glue(path):
+    """`pub fn op(&self, a, b) { Type::new(a, b).execute(self.clone()) }` and `Type::new(a, b) { Type { f: a | FunctionWrapper::new(a) |
+    a.to_vec() | <other operator>::new(..), .. } }`: parameters reach the fields unchanged"""
+    src = open(path).read()
+    toks = rxprep.strip_test_mods(tree(src))
+    problems = []
+    # 1. methods of `impl Observable` in this file
+    obs_methods = impl_methods(toks, 'Observable')
+    for mname, body in obs_methods.items():
+        txt = re.sub(r'\s+', '', src[body.start:body.end])
+        m = re.fullmatch(r'\{(?:\w+::)*(\w+)(?:::<[^()]*>)?::new\(([^()]*)\)\.execute\(self\.clone\(\)\)\}', txt)
+        if not m:
+            continue   # not the plain glue shape (publish(), ref_count(), to_vec() ..): nothing is claimed here
+        # header of the method to get its parameter names
+        hdr = None
+        for i, t in enumerate(toks):
+            pass
+        args = [a for a in m.group(2).split(',') if a]
+        # find the fn header tokens inside the impl block
+        params = None
+        for parent, i, t in walk(toks):
+            if t.is_id('fn') and i + 1 < len(parent) and parent[i + 1].is_id(mname):
+                j = i + 2
+                hdr = []
+                while j < len(parent) and not parent[j].is_group('{'):
+                    hdr.append(parent[j]); j += 1
+                if j < len(parent) and parent[j] is body:
+                    params = _params_of(hdr, src)
+                    break
+        if params is None:
+            continue
+        if args != params:
+            problems.append('Observable::%s passes (%s) to %s::new, its parameters are (%s)' % (mname, ', '.join(args), m.group(1), ', '.join(params)))
+    # 2. `new` of every operator struct in this file
+    structs = [toks[i + 1].text for i, t in enumerate(toks) if t.is_id('struct') and i + 1 < len(toks) and toks[i + 1].kind == 'ident']
+    for st in structs:
+        ms = impl_methods(toks, st)
+        if 'new' not in ms:
+            continue
+        body = ms['new']
+        # parameters of new
+        params = None
+        for parent, i, t in walk(toks):
+            if t.is_id('fn') and i + 1 < len(parent) and parent[i + 1].is_id('new'):
+                j = i + 2
+                hdr = []
+                while j < len(parent) and not parent[j].is_group('{'):
+                    hdr.append(parent[j]); j += 1
+                if j < len(parent) and parent[j] is body:
+                    params = _params_of(hdr, src)
+                    break
+        if params is None:
+            continue
+        txt = re.sub(r'\s+', '', src[body.start:body.end])
+        for prm in params:
+            # every use of the parameter inside `new` must be one of the identity shapes
+            for m in re.finditer(r'(?<![\w.])%s(?![\w])' % re.escape(prm), txt):
+                a, b = m.start(), m.end()
+                before, after = txt[max(0, a - 24):a], txt[b:b + 12]
+                ok = (before.endswith(('{', ',', ':', 'FunctionWrapper::new(', '::new(')) or before.endswith(('assert!(', '|_|', '|x|!', 'move|x|!', '(x)', '=')) or re.search(r'(move)?\|[^|]*\|!?$', before) is not None)
+                ok_after = after.startswith((',', '}', ')', ':', '.to_vec()', '.clone()', '>0', '(x)', '(')) or after == ''
+                if not (ok and ok_after):
+                    problems.append('%s::new does not store its parameter `%s` unchanged: ...%s[%s]%s...' % (st, prm, before[-16:], prm, after))
+                    break
+    if problems:
+        return 'failed', '; '.join(problems[:3])
     return None
